@@ -425,3 +425,49 @@ func H_C11_unset_then_set() {
 	}
 	verifReach("end")
 }
+
+// long lists and user-defined containers on the written path: SetTF through element 100..999 of a list of 600
+// (reuse below the count, padding above), and through stored derived containers (reused, never replaced)
+func H_C11_set_long_lists_and_derived_intermediates() {
+	x, v := nondetInt(), nondetInt()
+	if nondetIntRange(0, 1) == 0 {
+		inner := NewObject("k", x)
+		l := NewListOf(inner, 600)
+		hi := []string{"10", "51", "59", "60", "65"}[nondetIntRange(0, 4)]
+		d1, d2 := hi[0], hi[1]
+		d3 := nondetByte()
+		verifAssume(verifAnd(d3 >= '0', d3 <= '9'))
+		idx := hConc(int(d1-'0')*100+int(d2-'0')*10+int(d3-'0'), 100, 660)
+		p := "#" + string([]byte{d1, d2, d3}) + ".name"
+		root := NewObject("rows", l)
+		_, ps := hSetTFAny(root, ".rows"+p, v)
+		verifAssert(!ps, "SetTF on a well-formed path succeeds")
+		if !ps {
+			got, gp := hGetTFAny(root, ".rows"+p)
+			gi, isInt := got.(int)
+			verifAssert(!gp && isInt && gi == v, "GetTF(p) yields v")
+			if idx < 600 {
+				verifAssert(l.Count() == 600 && l.Get(idx) == any(inner) && inner.Count() == 2, "existing intermediates of the right kind are reused (identical containers)")
+			} else {
+				pad := true
+				if idx > 600 {
+					pad = l.TypeOf(idx-1) == TypeNil && l.TypeOf(600) == TypeNil
+				}
+				verifAssert(l.Count() == idx+1 && pad && l.Get(0) == any(inner) && l.Get(599) == any(inner), "lists are padded with nil up to the requested index")
+			}
+		}
+	} else {
+		dl := hDerivedList(x, NewObject("q", 1))
+		do := hDerivedObject("q", x, "l", NewList(1))
+		root := NewObject("dl", dl, "do", do)
+		hostL := NewList(do, dl)
+		_, p1 := hSetTFAny(root, ".do.z", v)
+		_, p2 := hSetTFAny(root, ".dl#1.z", v)
+		_, p3 := hSetTFAny(hostL, "#0.l#1", v)
+		_, p4 := hSetTFAny(hostL, "#1#2", v)
+		verifAssert(!p1 && !p2 && !p3 && !p4, "SetTF on a well-formed path succeeds")
+		verifAssert(root.Get("dl") == any(dl) && root.Get("do") == any(do) && hostL.Get(0) == any(do) && hostL.Get(1) == any(dl), "existing intermediates of the right kind are reused (identical containers), user-defined containers included")
+		verifAssert(do.Count() == 3 && do.GetInt("q") == x && dl.Count() == 3 && dl.GetInt(0) == x, "every entry that is not on the path keeps its previous value")
+	}
+	verifReach("end")
+}
